@@ -1,6 +1,6 @@
 CONSTANTS
   Names = {"a", "b", "c"}
-  ShapeIds = {1, 2, 3, 4, 5, 6, 7, 8, 9, 10, 12}
+  ShapeIds = {1, 2, 3, 4, 5, 6, 7, 8, 9, 12}
   ExtNames = {"a", "c"}
   MaxMods = 4
   MaxExt = 2
